@@ -286,6 +286,7 @@ package gmtls
 //@   (requires suite (not (isnil cipherSuite)))
 //@   (ensures prf (not (isnil (field result prf))))
 //@   (ensures hashes (and (not (isnil (field result client))) (not (isnil (field result server)))))
+//@   (ensures md5pair (=> (bvult version #x0303) (and (not (isnil (field result clientMD5))) (not (isnil (field result serverMD5))))))
 //@   (ensures version (= (field result version) version)))
 // the master secret has 48 bytes in memory of its own
 //@ (func masterFromPreMasterSecret sweep
